@@ -244,6 +244,15 @@ class StmtMixin:
         ida = {x.get_id() for x in a.owned}
         m.owned = [x for x in b.owned if x.get_id() in ida]
         m.uses = a.uses | b.uses
+        hid = {f.get_id() for f in a.heavy}
+        m.heavy = list(a.heavy) + [f for f in b.heavy if f.get_id() not in hid]
+        ids = {f.get_id() for (_, f) in a.lazy}
+        m.lazy = list(a.lazy) + [(n, f) for (n, f) in b.lazy if f.get_id() not in ids]
+        for k in set(a.ghost) | set(b.ghost):
+            va_, vb_ = a.ghost.get(k), b.ghost.get(k)
+            if isinstance(va_, int) or isinstance(vb_, int):
+                if va_ != vb_:
+                    return None
         m.ghost = dict(a.ghost)
         for k, v in b.ghost.items():
             if k in m.ghost and z3.is_expr(v) and z3.is_expr(m.ghost[k]) and not v.eq(m.ghost[k]):
@@ -506,8 +515,18 @@ class StmtMixin:
                     else:
                         out.append(o)
             if self.feasible(s_exit):
+                self.loop_exit_lemmas(k, anchor, entry, s_exit, {})
                 out.append(Outcome("normal", s_exit))
         return out
+
+    def loop_exit_lemmas(self, k, anchor, entry: State, s_exit: State, it: dict):
+        """contract-supplied proof steps at a loop exit: each is proved (obligation) and then available"""
+        fn = getattr(self.spec, "exit_lemmas", {}).get(k) if self.spec else None
+        if fn is None:
+            return
+        for (name, f) in fn(self.loop_ctx(entry, s_exit, it)):
+            self.oblige(s_exit, "lemma", name, f, anchor)
+            s_exit.assume(f)
 
     def loop_ctx(self, entry: State, cur: State, it: dict):
         from .specs import LoopCtx
@@ -553,6 +572,11 @@ class StmtMixin:
         is_list = strip_opt(src.ty).kind == "list"
         ety = strip_opt(src.ty).args[0]
         i0 = z3.IntVal(0)
+        tup_aux = None
+        if not is_list:
+            # tuples are immutable: one ground name for the item array / length for the whole loop
+            tup_aux = src.aux if src.aux is not None else (z3.simplify(z3.Select(entry.heap["t_item"], a)), z3.simplify(entry.t_len(a)))
+            src = SV(src.t, src.ty, tup_aux)
         for (name, f) in inv(self.loop_ctx(entry, entry, {"i": i0, "src": src})):
             self.oblige(entry, "inv-init", name, f, anchor)
         def prelude(p):
@@ -564,6 +588,9 @@ class StmtMixin:
         h.tags.append(anchor)
         i = fresh("i", I)
         ln = (h.l_len(a) if is_list else h.t_len(a))
+        if tup_aux is not None:
+            h.assume(z3.Select(h.heap["t_item"], a) == tup_aux[0], h.t_len(a) == tup_aux[1])
+            ln = tup_aux[1]
         h.assume(i >= 0, i <= ln, ln >= 0)
         for (name, f) in inv(self.loop_ctx(entry, h, {"i": i, "src": src})):
             h.assume(f)
@@ -571,10 +598,10 @@ class StmtMixin:
         s_body = h.fork(i < ln, "iter")
         s_exit = h.fork(i == ln, "exit")
         if self.feasible(s_body):
-            item = s_body.l_item(a, i) if is_list else s_body.t_item(a, i)
+            item = s_body.l_item(a, i) if is_list else z3.Select(tup_aux[0], i)
             if not is_list:
                 from .comps import tmem
-                s_body.assume(tmem(z3.Select(s_body.heap["t_item"], a), ln, item))
+                s_body.assume(tmem(tup_aux[0], ln, item))
             itemv = self.typed(s_body, item, ety)
             if mode == "enumerate":
                 itemv = SV(Val.pair(vint(i), itemv.t), PAIR(TINT, ety))
@@ -593,6 +620,7 @@ class StmtMixin:
                     else:
                         out.append(o)
         if self.feasible(s_exit):
+            self.loop_exit_lemmas(k, anchor, entry, s_exit, {"i": ln, "src": src})
             out.append(Outcome("normal", s_exit))
         return out
 
